@@ -283,6 +283,9 @@ ARG_RECOGNISERS: List[Tuple[str, str]] = [
     ("get_lower_limit", "l"),
     ("get_upper_limit", "u"),
     ("get_value", "v"),
+    ("_parameter_lower_limit", "l"),
+    ("_parameter_upper_limit", "u"),
+    ("_parameter_value", "v"),
     ("lower_limits.items()", "l"),
     ("upper_limits.items()", "u"),
     ("lower_limits", "l"),
